@@ -484,7 +484,7 @@ typename ebpps_sample<T, A>::const_iterator& ebpps_sample<T, A>::const_iterator:
 }
 
 template<typename T, typename A>
-typename ebpps_sample<T, A>::const_iterator& ebpps_sample<T, A>::const_iterator::operator++(int) {
+typename ebpps_sample<T, A>::const_iterator ebpps_sample<T, A>::const_iterator::operator++(int) {
   const_iterator tmp(*this);
   operator++();
   return tmp;
